@@ -613,7 +613,7 @@ class SymBytes:
                 else:
                     # same codec: equal values give equal bytes (function congruence); the converse
                     # (injectivity) is the codec's round-trip lemma and is NOT used here.
-                    cs.append(z3.And(x.n == y.n, x.arr == y.arr) if x.arr is not None else z3.BoolVal(False))
+                    cs.append(zint(x.tag[1]) == zint(y.tag[1]))
             return z3.And(cs + [z3.BoolVal(True)])
         k = z3.FreshInt("k")
         n = self.zlen()
